@@ -16,7 +16,7 @@ IMPORTS = "From V Require Import Model.Label Harness.Run Harness.LabelCheck."
 NAN = float("nan")
 MISS = object()  # placeholder for "missing" in generated label vectors
 
-NUM_ALPHAS = [[1, 2, 5], [0.5, -2.0, 3.0], [0, -0.0 + 7, 10]]
+NUM_ALPHAS = [[1, 2, 5], [0.5, -2.0, 3.0], [0, -0.0 + 7, 10], [-2, 0, 1], [-3, 1, 2]]   # incl. integer classes with negatives whose maximum is K-1
 STR_ALPHAS = [["a", "b", "zz"], ["n", "no", "yes"], ["x", "B", "10"]]   # "n"/"no" are prefixes of the sentinel "none"
 NUM_SENT = [NAN, -1, 99, None]
 STR_SENT = ["nan", "", "none", None]
@@ -99,7 +99,7 @@ def gen_vectors(ctx):
     """(vals with sentinel substituted, sentinel) over the exhaustive small scope."""
     maxlen = 3 if ctx.is_quick else 4
     for alphas, sents in ((NUM_ALPHAS, NUM_SENT), (STR_ALPHAS, STR_SENT)):
-        for alpha in (alphas if not ctx.is_quick else alphas[:2]):
+        for alpha in (alphas if not ctx.is_quick else (alphas[:2] + alphas[3:])):
             for s in sents:
                 for n in range(0, maxlen + 1):
                     for tup in itertools.product(alpha + [MISS], repeat=n):
@@ -113,7 +113,7 @@ def gen_vectors(ctx):
     rng = ctx.rng("vec")
     for _ in range(150 if ctx.is_quick else 3000):
         strs = rng.random() < 0.4
-        alpha = (STR_ALPHAS if strs else NUM_ALPHAS)[int(rng.integers(3 if strs else 2))]
+        alpha = (STR_ALPHAS if strs else NUM_ALPHAS)[int(rng.integers(3 if strs else len(NUM_ALPHAS)))]
         s = (STR_SENT if strs else NUM_SENT)[int(rng.integers(4))]
         n = int(rng.integers(1, 40))
         pm = rng.choice([0.0, 0.3, 1.0])
